@@ -658,6 +658,10 @@ def rule_wr_sort(cx, rep, port):
         if cfd is None:
             rep.undecided(_key(c, 'finish') + ' sort', sc, 'comparator `{}` not resolved'.format(node_text(cmpf)))
             return
+        coll = [x for x in ast.walk(cfd) if isinstance(x, ast.Call) and ((isinstance(x.func, ast.Attribute) and x.func.attr == 'localeCompare') or (dotted(x.func) or '').endswith('Collator'))]
+        if coll:
+            rep.violated('{} comparator {}'.format(_key(c, 'finish'), cfd.name), coll[0], 'sort keys are compared with `{}`: locale collation is not the code-point order of the reference, so ORDER BY over text yields a different order'.format(node_text(coll[0], 60)))
+            return
         verdict = _js_comparator_reaches_payload(cfd)
         if verdict is True:
             rep.violated('{} comparator {}'.format(_key(c, 'finish'), cfd.name), cfd, 'the comparator loops over every element of the entry, including the record payload: entries with equal key and equal NR (join matches, UNNEST) are ordered by their content instead of emission order')
@@ -725,5 +729,37 @@ def rule_wr_aggw(cx, rep, port):
         else:
             rep.holds(_key(c, 'finish') + ' order', s, 'group keys are emitted in ascending sorted order')
     # one record per key: [ag.get_final(key) for ag in aggregators]
-    gf = [n for n in walk_no_nested(fin) if isinstance(n, ast.Call) and isinstance(n.func, ast.Attribute) and n.func.attr == 'get_final']
-    rep.decide(len(gf) == 1, _key(c, 'finish') + ' row', gf[0] if gf else fin, 'each output field is get_final(key) of the column\'s aggregator, in column order', 'row assembly from get_final(key) not recognised')
+    gf = [n for n in ast.walk(fin) if isinstance(n, ast.Call) and isinstance(n.func, ast.Attribute) and n.func.attr == 'get_final']
+    if len(gf) != 1 or len(gf[0].args) != 1:
+        rep.undecided(_key(c, 'finish') + ' row', gf[0] if gf else fin, 'row assembly from get_final(key) not recognised ({} get_final call(s))'.format(len(gf)))
+        return
+    g0 = gf[0]
+
+    def ranges_over(var, what):
+        """is the name `var` bound, by a loop / comprehension / map callback that encloses the call, to the elements of a
+        sequence whose text satisfies `what`?"""
+        q = getattr(g0, 'parent', None)
+        while q is not None and q is not fin:
+            if isinstance(q, ast.For) and isinstance(q.target, ast.Name) and q.target.id == var:
+                return what(q.iter)
+            if isinstance(q, (ast.ListComp, ast.GeneratorExp)):
+                for gen in q.generators:
+                    if isinstance(gen.target, ast.Name) and gen.target.id == var:
+                        return what(gen.iter)
+            if isinstance(q, ast.Lambda) and [a.arg for a in q.args.args][:1] == [var]:
+                call = getattr(q, 'parent', None)
+                if isinstance(call, ast.Call) and isinstance(call.func, ast.Attribute) and call.func.attr == 'map':
+                    return what(call.func.value)
+            q = getattr(q, 'parent', None)
+        # a counting loop `for i in range(len(seq)): var = seq[i]`
+        for n in walk_no_nested(fin):
+            if isinstance(n, ast.Assign) and len(n.targets) == 1 and is_name(n.targets[0], var) and isinstance(n.value, ast.Subscript) and isinstance(n.value.slice, ast.Name):
+                return what(n.value.value)
+        return None
+    from ..snippet import inline_single_defs
+    ag_ok = isinstance(g0.func.value, ast.Name) and ranges_over(g0.func.value.id, lambda e: (dotted(e) or '').endswith('aggregators'))
+    key_ok = isinstance(g0.args[0], ast.Name) and ranges_over(g0.args[0].id, lambda e: True)
+    if ag_ok is None or key_ok is None:
+        rep.undecided(_key(c, 'finish') + ' row', g0, 'how `{}` ranges over the aggregators / keys is not recognised'.format(node_text(g0, 60)))
+    else:
+        rep.decide(bool(ag_ok and key_ok), _key(c, 'finish') + ' row', g0, 'each output field is get_final(key) of the column\'s aggregator, in column order', 'a row is not assembled as get_final(key) of every aggregator in column order (`{}`)'.format(node_text(g0, 60)))
